@@ -75,6 +75,14 @@ class _Starved(Exception):
     pass
 
 
+class _CallCap(Exception):
+    pass
+
+
+KINDS = ['returned', 'IndexError', 'stream-exhausted', 'call-cap', 'other-exception']
+CALL_CAP = 250          # fit_isophote calls per fit_image run; the model's fuel is 400 per loop
+
+
 def run_fit_image(image, geom_args, kwargs, script=None, minit=10, record_steps=False):
     """Run the real Ellipse.fit_image.  `script` = list of (stop_code, valid): the
     EllipseFitter is replaced by an oracle that returns these outcomes in turn
@@ -110,6 +118,8 @@ def run_fit_image(image, geom_args, kwargs, script=None, minit=10, record_steps=
     class RecEllipse(ell.Ellipse):
         def fit_isophote(self, sma, *a, **kw):
             mi = a[2] if len(a) > 2 else kw.get('minit', fit.DEFAULT_MINIT)
+            if len(calls) >= CALL_CAP:
+                raise _CallCap()
             calls.append((float(sma), bool(kw.get('noniterate', False)),
                           bool(kw.get('going_inwards', False)), mi == 2 * minit))
             return super().fit_isophote(sma, *a, **kw)
@@ -139,13 +149,24 @@ def run_fit_image(image, geom_args, kwargs, script=None, minit=10, record_steps=
                               harm=float(harmonic), gc=gtuple(new.geometry), new=new))
             return new
 
+    real_check = fit.EllipseFitter.__dict__['_check_conditions']
+
+    def rec_check(sample, *a, **kw):
+        r = real_check.__func__(sample, *a, **kw)
+        # geometry after the eps-sign / eps-zero normalisation of this very step (the sample object
+        # may be modified later by Isophote.fix_geometry, so it is read now)
+        if steps and steps[-1].get('new') is sample:
+            steps[-1]['gn'] = gtuple(sample.geometry)
+        return r
+
     geometry = EllipseGeometry(*geom_args)
     img0 = image.copy()
     ell.EllipseFitter = OracleFitter
     if record_steps:
         fit.fit_first_and_second_harmonics = rec_harm
         fit._CORRECTORS[:] = [RecCorr(k, c) for k, c in enumerate(real_corr)]
-    kind, isos, isolist = 0, [], None
+        fit.EllipseFitter._check_conditions = staticmethod(rec_check)
+    kind, isos, isolist, exc = 0, [], None, None
     try:
         with warnings.catch_warnings():
             warnings.simplefilter('ignore')
@@ -156,13 +177,21 @@ def run_fit_image(image, geom_args, kwargs, script=None, minit=10, record_steps=
         kind = 1
     except _Starved:
         kind = 2
+    except _CallCap:
+        kind = 3
+    except Exception as e:                       # anything else escaping from fit_image
+        import traceback
+        tb = traceback.extract_tb(e.__traceback__)[-1]
+        kind, exc = 4, f'{type(e).__name__}: {e} ({tb.filename.split("/")[-1]}:{tb.lineno} {tb.name})'
     finally:
         ell.EllipseFitter = real_fitter
         fit.fit_first_and_second_harmonics = real_harm
         fit._CORRECTORS[:] = real_corr
+        fit.EllipseFitter._check_conditions = real_check
+    steps = [s for s in steps if 'gn' in s]        # a step whose update() raised has no 'gn'
     for s in steps:
-        s['gn'] = gtuple(s.pop('new').geometry)
-    return dict(kind=kind, isos=isos, calls=calls, stream=stream, steps=steps,
+        s.pop('new')
+    return dict(kind=kind, isos=isos, calls=calls, stream=stream, steps=steps, exc=exc,
                 isolist=isolist, untouched=bool(np.array_equal(image, img0)), geometry=geometry)
 
 
@@ -195,6 +224,10 @@ def gen_sched(rng):
     else:
         maxsma = rng.choice([sma0, sma0 * 1.05, sma0 + 1, sma0 * 2, sma0 * 3, 12.0, 20.0, sma0 + step])
     maxrit = None if rng.random() < 0.7 else rng.choice([0.0, sma0 * 0.5, sma0 * 1.2, sma0 * 2, 3.0])
+    if maxrit and not maxsma and rng.random() < 0.97:
+        # maxrit without a (truthy) maxsma: beyond maxrit nothing is fitted and nothing can fail, so
+        # the real outward loop never ends (observation, see run()); generated rarely and cut by CALL_CAP
+        maxrit = None
     # oracle stream: mostly real outcomes, sometimes adversarial
     n = rng.choice([0, 1, 2, 3, 5, 8, 12, 20, 30])
     adv = rng.random() < 0.15
@@ -323,6 +356,27 @@ def run_real(p, record_steps=True):
     return obs
 
 
+# inputs that once exposed a defect; run first in every tier
+PINNED_REAL = [
+    # fixes/C20-2: nearest-neighbour sampling at sma ~ 1 pixel gives a zero gradient; the position
+    # corrector divides by it and the integrator raises OverflowError (int(inf))
+    dict(ny=80, nx=88, x0=34.98828509077568, y0=46.0078691431007, eps=0.05, pa=0.18272307295944987,
+         law='sersic1', scale=10.082400250111355, lin=False, step=0.1, sma0=10.0, gsma=10.0, minsma=0.0,
+         maxsma=22.857142857142858, maxrit=None, integr='nearest_neighbor', lin_arg=True,
+         fixes=(False, False, False),
+         g=(34.99650196113973, 45.12410311772379, 0.47884898515686336, 0.05279603924666661)),
+    # fixes/C20-1: the first inward step (9.09) lies below minsma = 9.5
+    dict(ny=64, nx=64, x0=32.0, y0=31.0, eps=0.3, pa=0.7, law='sersic1', scale=9.0, lin=False, step=0.1,
+         sma0=10.0, gsma=10.0, minsma=9.5, maxsma=16.0, maxrit=None, integr='bilinear', lin_arg=True,
+         fixes=(False, False, False), g=(32.3, 30.8, 0.8, 0.25)),
+    # fixes/C20-3: nearest-neighbour sampling truncates instead of rounding: centre off by (+0.5, +0.5)
+    dict(ny=80, nx=88, x0=43.91872110607849, y0=38.30983430440296, eps=0.4, pa=0.0, law='gauss',
+         scale=15.686647441593863, lin=True, step=1.0, sma0=10.471944078468393, gsma=10.471944078468393,
+         minsma=4.0, maxsma=22.857142857142858, maxrit=None, integr='nearest_neighbor', lin_arg=True,
+         fixes=(False, True, True), g=(44.09966729093242, 37.54024950563301, 0.0, 0.4)),
+]
+
+
 def angdiff(a, b):
     """Difference of two position angles modulo pi."""
     d = (a - b) % math.pi
@@ -330,31 +384,42 @@ def angdiff(a, b):
 
 
 def recovery(p, obs):
-    """Support test of the (unprovable) recovery clause on well-sampled isophotes
-    (sma >= 5, converged, inside the frame).  Returns (n_checked, gross, stats)."""
+    """Support test of the (unprovable) recovery clause on WELL-SAMPLED isophotes: converged
+    (stop code 0), sma >= 5, semi-minor axis >= 3 pixels, logarithmic intensity slope along the
+    minor axis <= 0.5 per pixel (the image is the profile sampled at pixel centres: steeper
+    profiles are not resolved by any interpolation), inside the frame and within 3.5 scale radii.
+    Tolerance rule of the property: |fit - truth| <= max(small absolute tolerance, 5 x reported
+    error), absolute tolerances 0.25 pixel (centre), 0.03 (eps), 0.02/eps rad (PA), 3 % (intensity).
+    Returns (n_checked, gross, worst ratios)."""
     il = obs['isolist']
     f = radial(p['law'], p['scale'])
     gross, n = [], 0
     worst = dict(cen=0.0, eps=0.0, pa=0.0, intens=0.0)
     edge = min(p['x0'], p['y0'], p['nx'] - 1 - p['x0'], p['ny'] - 1 - p['y0'])
+    e0 = max(p['eps'], 0.05)
     for iso in il:
         if iso.sma < 5 or iso.stop_code != 0 or iso.sma > 0.8 * edge or iso.sma > 3.5 * p['scale']:
+            continue
+        truth = float(f(iso.sma))
+        slope = abs(math.log(float(f(iso.sma * 1.01))) - math.log(truth)) / (0.01 * iso.sma) / (1.0 - p['eps'])
+        if iso.sma * (1.0 - p['eps']) < 3.0 or slope > 0.5:
             continue
         n += 1
         dc = math.hypot(iso.x0 - p['x0'], iso.y0 - p['y0'])
         de = abs(iso.eps - p['eps'])
         dp = angdiff(iso.pa, p['pa'])
-        di = abs(iso.intens - float(f(iso.sma))) / float(f(iso.sma))
-        worst['cen'] = max(worst['cen'], dc)
-        worst['eps'] = max(worst['eps'], de)
-        worst['intens'] = max(worst['intens'], di)
-        if p['eps'] >= 0.1:
-            worst['pa'] = max(worst['pa'], dp)
-        tol_c = max(0.25, 5 * math.hypot(iso.x0_err, iso.y0_err))
-        tol_e = max(0.05, 5 * iso.ellip_err)
-        tol_p = max(0.05 / max(p['eps'], 0.05) * 0.4, 5 * iso.pa_err)
-        if dc > tol_c or de > tol_e or (p['eps'] >= 0.1 and dp > tol_p) or di > 0.1:
-            gross.append(dict(sma=float(iso.sma), dcentre=dc, deps=de, dpa=dp, dintens=di))
+        di = abs(iso.intens - truth) / truth
+        rc = dc / max(0.25, 5 * math.hypot(iso.x0_err, iso.y0_err))
+        re_ = de / max(0.03, 5 * iso.ellip_err)
+        rp = dp / max(0.02 / e0, 5 * iso.pa_err)
+        ri = di / max(0.03, 5 * iso.int_err / abs(iso.intens))
+        worst['cen'] = max(worst['cen'], rc)
+        worst['eps'] = max(worst['eps'], re_)
+        worst['pa'] = max(worst['pa'], rp)
+        worst['intens'] = max(worst['intens'], ri)
+        if max(rc, re_, rp, ri) > 1.0:
+            gross.append(dict(sma=float(iso.sma), dcentre=dc, deps=de, dpa=dp, dintens=float(di),
+                              ratio_to_tolerance=[round(float(v), 2) for v in (rc, re_, rp, ri)]))
     return n, gross, worst
 
 
@@ -466,8 +531,16 @@ def polar_oracle(p, sc, vec, tol=1e-9):
 
 
 # --------------------------------------------------------------------------
+def _t(ctx, label):
+    import os
+    import time
+    if os.environ.get('C20_TIMING'):
+        print(f'[C20 timing] {label}: {time.time() - ctx.t0:.1f}s', flush=True)
+
+
 def run(ctx):
     ctx.build(FILES)
+    _t(ctx, 'build')
     quick = ctx.tier == 'quick'
     ctx.level = 'proof'
     ctx.cov['rule'] = (
@@ -508,7 +581,9 @@ def run(ctx):
     for _ in range(n_script):
         p = gen_sched(ctx.rng)
         obs = run_sched(p)
-        stream = obs['stream'] if obs['kind'] != 2 else list(p['stream'])
+        if obs['kind'] == 4:
+            ctx.violation('Ellipse.fit_image:exception', f'fit_image raised {obs["exc"]}', describe_sched(p))
+            continue
         # the oracle outcomes the run consumed are a prefix of the script
         consumed = obs['stream']
         if consumed != [tuple(x) for x in p['stream'][:len(consumed)]]:
@@ -516,7 +591,7 @@ def run(ctx):
         terms.append(sched_term(p, obs, p['stream']))
         meta.append(('sched', p, obs))
         ctx.count_case(describe_sched(p), len(obs['calls']) > 0)
-        ctx.stat('scripted', 'result:' + ['returned', 'IndexError', 'stream-exhausted'][obs['kind']])
+        ctx.stat('scripted', 'result:' + KINDS[obs['kind']])
         ctx.stat('scripted', 'growth:' + ('linear' if p['lin'] else 'geometric'))
         if obs['kind'] == 0:
             ctx.stat('scripted', 'returned-empty' if not obs['isos'] else 'returned-nonempty')
@@ -534,20 +609,30 @@ def run(ctx):
                 ctx.violation('Ellipse.fit_image:' + sig, msg, describe_sched(p))
     ctx.sample({'scripted_case': describe_sched(meta[3][1]), 'impl': {k: meta[3][2][k] for k in ('kind', 'isos', 'calls')}})
 
+    _t(ctx, 'scripted')
     # ---- real fits ----------------------------------------------------------------
     n_real = 22 if quick else 150
     all_steps = []
-    for j in range(n_real):
-        p = gen_real(ctx.rng, thorough=not quick)
+    for j in range(len(PINNED_REAL) + n_real):
+        if j < len(PINNED_REAL):
+            p = dict(PINNED_REAL[j])
+            ctx.stat('real', 'pinned')
+        else:
+            p = gen_real(ctx.rng, thorough=not quick)
         obs = run_real(p)
+        ctx.count_case(describe_real(p), True)
+        if obs['kind'] == 4:
+            ctx.stat('real', 'result:' + KINDS[4])
+            ctx.violation('Ellipse.fit_image:exception', f'fit_image raised {obs["exc"]} on a noise-free '
+                          f'elliptical galaxy (integrmode={p["integr"]})', describe_real(p))
+            continue
         terms.append(sched_term(p, obs, obs['stream']))
         meta.append(('real', p, obs))
-        ctx.count_case(describe_real(p), True)
         ctx.stat('real', 'law:' + p['law'])
         ctx.stat('real', 'integr:' + p['integr'])
         ctx.stat('real', 'fix:' + ''.join('CPE'[i] for i in range(3) if p['fixes'][i]) if any(p['fixes']) else 'fix:none')
         ctx.stat('real', 'growth:' + ('linear' if p['lin'] else 'geometric'))
-        ctx.stat('real', 'result:' + ['returned', 'IndexError', 'stream-exhausted'][obs['kind']])
+        ctx.stat('real', 'result:' + KINDS[obs['kind']])
         for c, v in obs['stream']:
             ctx.stat('real-outcomes', f'{c}/{"valid" if v else "invalid"}')
         if not obs['untouched']:
@@ -565,12 +650,13 @@ def run(ctx):
         ctx.support('recovery_well_sampled', n)
         ctx.stat('real', 'well-sampled-isophotes', n)
         for k, v in worst.items():
-            key = 'worst_' + k
+            key = 'worst_ratio_to_tolerance_' + k
             d = ctx.cov['correspondence'].setdefault('recovery', {})
             d[key] = max(d.get(key, 0.0), round(v, 5))
         if gross:
-            ctx.violation('Ellipse.fit_image:recovery', f'well-sampled isophote far from the truth: {gross[:2]}',
-                          describe_real(p))
+            ctx.violation('Ellipse.fit_image:recovery:' + p['integr'],
+                          f'well-sampled isophote differs from the truth by more than max(abs tol, 5 x reported '
+                          f'error) [centre, eps, pa, intensity]: {gross[:2]}', describe_real(p))
         st = obs['steps']
         ctx.stat('real', 'corrector-steps-observed', len(st))
         pick = st if len(st) <= 30 else [st[i] for i in sorted(ctx.rng.sample(range(len(st)), 30))]
@@ -585,6 +671,7 @@ def run(ctx):
         ctx.stat('steps', f'corrector:{s["k"]}')
         ctx.stat('steps', 'mask:' + ''.join('1' if b else '0' for b in s['fix']))
 
+    _t(ctx, 'real')
     # ---- model image / misc support (few: slow) ----------------------------------------
     from photutils.isophote import build_ellipse_model
     done = 0
@@ -619,6 +706,7 @@ def run(ctx):
             ctx.violation('build_ellipse_model:residual', f'median relative residual {float(np.median(rel)):.3f} '
                           'inside the fitted region', describe_real(p))
 
+    _t(ctx, 'model image')
     # ---- polar twins ---------------------------------------------------------------------
     n_pol = 250 if quick else 2500
     for _ in range(n_pol):
@@ -643,8 +731,10 @@ def run(ctx):
             ctx.violation('EllipseGeometry.to_polar:' + b[0], f'polar transform wrong/twins disagree: {b}',
                           {'mode': 'polar', 'x0': p['x0'], 'y0': p['y0'], 'pa': p['pa'], 'pts': p['pts']})
 
+    _t(ctx, 'polar')
     # ---- the model in Coq --------------------------------------------------------------------
     bad = ctx.coq_eval_cases(IMPORTS, 'check_case', terms, case_type='case')
+    _t(ctx, 'coq')
     ctx.stat('coq', 'disagreements', len(bad))
     for i in bad[:12]:
         kind, p, obs = meta[i]
